@@ -33,7 +33,7 @@ for pid in sorted(props):
         'level_claimed': {'category': 'model_checking',
                           'text': 'Bounded symbolic model checking of the real code: the MIR of the contract (regenerated from /repo on every run) is executed symbolically from an arbitrary pre-state satisfying the representation invariant; %s. Each obligation is an exact z3 query per feasible path: unsat = holds for every value inside the stated bounds, sat = concrete counterexample replayed on the compiled contract before it is reported. One inductive step covers histories of any length.' % what,
                           'design_ref': 'DESIGN.md ' + ref},
-        'level_note': 'Trusted: rustc MIR semantics as implemented by mirsym (validated on every run by replaying sampled path witnesses on the compiled contract), the library models of DESIGN.md 3 (rust_decimal, cosmwasm_std, cw-storage-plus, provwasm queriers, uuid, semver), z3 5.1. Bounds: amounts and decimal values < 10^9 (quick) / 10^12 (thorough), <= 3 / 6 fractional digits, fee rates in [0,1], list lengths <= 2-3; behaviour beyond them (96-bit / u128 overflow refusals) is not claimed. Pre-states range over Inv (DESIGN.md 5.1, 11.3); a counterexample is reported only after the compiled contract reproduced it from the seeded pre-state (C01 histories: from the empty store). Exit 2 = inconclusive (solver unknown, unmodelled callee, witness replay disagreeing), never a pass.',
+        'level_note': 'Trusted: rustc MIR semantics as implemented by mirsym (validated on every run by replaying sampled path witnesses on the compiled contract), the library models of DESIGN.md 3 (rust_decimal, cosmwasm_std, cw-storage-plus, provwasm queriers, uuid, semver), z3 5.1. Bounds: amounts and decimal values < 10^9 (quick) / 10^12 (thorough), <= 3 / 6 fractional digits, fee rates in [0,1], list lengths <= 2-3; behaviour beyond them (96-bit / u128 overflow refusals) is not claimed. Pre-states range over Inv (DESIGN.md 5.1, 11.3); a counterexample is reported only after the compiled contract reproduced it from the seeded pre-state (reached-state histories: replayed from the empty store, every step). Exit 2 = inconclusive (solver unknown, unmodelled callee, witness replay disagreeing), never a pass.',
         'technique': 'SMT-based symbolic execution of the real code: rustc MIR regenerated from /repo on every run is executed symbolically (engine mirsym, z3 5.1; pruning on a linear abstraction, one exact query per obligation per path, cvc5 re-decides a sample), counterexamples and sampled path witnesses replayed on the compiled contract'
                      + ('; the same obligations decided again on states reached from the empty store by bounded symbolic histories (instantiate + accepted requests along templates)' if pid in REACHED else '')
                      + ('; Kani/CBMC second opinion on the compiled conversion in the thorough tier' if pid == 'C15' else '')
